@@ -155,6 +155,10 @@ def main(argv=None):
                         known_hits.append((k, what))
                     seen_what.add(k["match"])
                     continue
+                if what in seen_what:
+                    dup_paths[what] = dup_paths.get(what, 0) + 1
+                    continue
+                seen_what.add(what)
                 os.makedirs(rep_dir, exist_ok=True)
                 path = os.path.join(rep_dir, re.sub(r"[^A-Za-z0-9_.-]+", "_", what)[:150] + ".json")
                 json.dump({"property": prop, "unit": "bounded", "obligation": f["what"], "reproduced": True,
